@@ -4,4 +4,4 @@ go 1.24
 
 require github.com/ja7ad/otp v0.0.0
 
-replace github.com/ja7ad/otp => /var/tmp/mrepo
+replace github.com/ja7ad/otp => /repo
